@@ -314,7 +314,11 @@ impl BDF {
             let mut h_signed = direction * h_try;
             let x_start = x;
             let mut x_new = x + h_signed;
-            if direction * (x_new - xend) > 0.0 {
+            // (a step that would end within rounding short of xend is clipped as well: it lands on xend
+            // itself, so that a requested time at xend is delivered)
+            let end_slack = if xend.is_finite() { 4.0 * Float::EPSILON * x.abs().max(xend.abs()) } else { 0.0 };
+            let past_end = direction * (x_new - xend);
+            if past_end > 0.0 || (past_end < 0.0 && past_end >= -end_slack) {
                 let step_to_end = (xend - x).abs();
                 // Within rounding of xend (e.g. max_step dividing the interval) the interval is
                 // covered; a step of about one ulp would only trip the stagnation guard.
